@@ -103,6 +103,11 @@ def make_arg(case):
             spec.append(["", {"bg": 45, "invert": True}])
         if not spec:
             spec = [["", {}]]
+    elif pattern == "rendered":
+        # a plain str that is the terminal string of a formatted text (what str(f) gives, or a
+        # line of coloured program output): linesplit takes it as the text it displays
+        spec = [[text[i:i + 2], dict(obs.PALETTE[(i // 2 + 1) % len(obs.PALETTE)])] for i in range(0, len(text), 2)]
+        return str(obs.build(spec)) if spec else "", obs.spec_cells(spec)
     else:
         k = 1 if pattern in ("every1", "every1+empty") else 2
         spec = [[text[i:i + k], dict(obs.PALETTE[(i // k + 1) % len(obs.PALETTE)])]
@@ -180,7 +185,7 @@ def _show(line):
     return "".join(obs.show(cs) if k == "w" else "<sp:%s>" % obs.show(cs) for k, cs in line)
 
 
-PATTERNS = ["str", "uniform", "every1", "every2", "every1+empty", "uniform+empty"]
+PATTERNS = ["str", "uniform", "every1", "every2", "every1+empty", "uniform+empty", "rendered"]
 
 
 def run(ctx):
